@@ -106,6 +106,31 @@ let handle (w : string list) : string =
       let (r, s) = Decoder.dstep (get decs id) op in
       Hashtbl.replace decs id s; out_str (fun _ -> "") r ^ " " ^ show_dec s
   | ["ddec"; id; raw; data] -> ddec id (raw = "1") (bytes_of_hex data)
+  | ["ddecb"; id; raw; _; data] -> ddec id (raw = "1") (bytes_of_hex data)
+  | "eencf" :: id :: huff :: cont :: forms ->
+      let pv tok = let b = bytes_of_hex (String.sub tok 1 (String.length tok - 1)) in
+                   if tok.[0] = 't' then Api.PText b else Api.PBytes b in
+      let form tok = (match String.split_on_char ',' tok with
+        | [k; n; v] -> let n = pv n and v = pv v in
+            (match k with
+             | "2" -> Api.F2 (n, v) | "3T" -> Api.F3 (n, v, Some true) | "3F" -> Api.F3 (n, v, Some false)
+             | "3N" -> Api.F3 (n, v, None) | "H" -> Api.FHeaderTuple (n, v) | "N" -> Api.FNever (n, v)
+             | _ -> fail "form kind")
+        | _ -> fail "form") in
+      let fs = Stdlib.List.map form forms in
+      let c = (match cont with
+        | "L" -> Api.CList fs | "I" -> Api.CIter fs
+        | "D" -> Api.CDict (Stdlib.List.map (fun f -> match f with Api.F2 (n, v) -> (n, v) | _ -> fail "dict form") fs)
+        | _ -> fail "container") in
+      let (r, s) = Api.coq_Encoder_encode_api (get encs id) c (huff = "1") in
+      Hashtbl.replace encs id s;
+      Hashtbl.replace last id (match r with Py.Ok b -> Some b | Py.Err _ -> None);
+      out_str hex_of_bytes r ^ " " ^ show_enc s
+  | ["cost"; l; raw; data] ->
+      (* model only: the reference decoder of the Spec is too slow for the long strings of this family *)
+      let (r, s) = Decoder.dstep (Decoder.coq_Decoder_init (z_of_string l)) (Decoder.DDecode (bytes_of_hex data, raw = "1")) in
+      out_str show_headers r ^ " " ^ show_dec s
+  | ["snapshot"] -> "ok:model"
   | ["pipe"; eid; did; raw] ->
       (match (try Hashtbl.find last eid with Not_found -> None) with
        | None -> "skip " ^ show_dec (get decs did)
